@@ -199,6 +199,16 @@ func Judge(c Case, mc *ModelCache, o Outcome) Verdict {
 		return Verdict{Class: "tool-does-not-terminate", Regime: "any",
 			Detail: fmt.Sprintf("run had not returned after %v although every statement of the script compiles in finite time on its own (the tool loops, or hands the library text that is not a statement of the script)", HangTimeout)}
 	}
+	switch o.SchedOutcome {
+	case "deadlock", "budget":
+		if mc.At(len(c.Input)) == nil {
+			return Verdict{Inconclusive: "library fails inside the model: " + mc.ModelPanic}
+		}
+		return Verdict{Class: "tool-does-not-terminate", Regime: "any",
+			Detail: fmt.Sprintf("under schedule seed %d the tool's goroutines reach a state from which run cannot return (%s): %s", c.Sched, o.SchedOutcome, clip(o.SchedDetail))}
+	case "stuck":
+		return Verdict{Inconclusive: "scheduled leg: a goroutine of the tool waits on something outside the simulation: " + clip(o.SchedDetail)}
+	}
 	if o.Panic != "" {
 		// Does the library alone panic on this script? Then it is C12 territory, not C16.
 		if mc.At(len(c.Input)) == nil {
